@@ -125,7 +125,10 @@ def zdiff(e, x, ctx=None, cache=None):
                     if not (z3.is_rational_value(da) and da.as_fraction() == 0):
                         r = r + b * POW(a, z3.simplify(b - 1)) * da
                     if not (z3.is_rational_value(db) and db.as_fraction() == 0):
-                        r = r + t * UF["log"](a) * db
+                        la = UF["log"](a)
+                        if z3.is_rational_value(a) and a.as_fraction() == 1:
+                            la = _ZERO
+                        r = r + t * la * db
                 else:
                     raise NotImplementedError(f"derivative of {name}")
             else:
